@@ -440,6 +440,7 @@ impl FieldVisitor {
 //@@ spec
     ensures
         v == 0xe0 || v == 0xf0 ==> r == Ok::<Field, ErrS>(Field::Multiple),       // [C03.constructor.every-width-variant] [C05.constructor.every-width-variant] a multiple field is an array (array8 / array32) of values or one bare value (AMQP 1.0 part 1, 1.4): every one of these constructors selects this variant
+        !(v == 0xe0 || v == 0xf0) && r is Ok ==> r == Ok::<Field, ErrS>(Field::Single),       // [C03.constructor.every-width-variant] [C05.constructor.every-width-variant] anything else is the other form
 //@@ end
 }
 } // mod array_or_single
